@@ -2,6 +2,8 @@ import GoDebian.Drv.Util
 import GoDebian.Drv.Version
 import GoDebian.Model.Dependency
 import GoDebian.Spec.Dependency
+import GoDebian.Spec.Arch
+import GoDebian.Spec.Version
 
 namespace GoDebian.Drv
 open GoDebian GoDebian.Dep
@@ -64,14 +66,24 @@ def dependencyHandler : Handler
   | "archis", [a1, a2, a3, b1, b2, b3] => do
       let x ← readArch a1 a2 a3
       let y ← readArch b1 b2 b3
-      pure (bool01 (x.is y))
+      -- specification on Debian-denotable operands (C06_is_wild / _is_all / _is_concrete)
+      let spec := if decide (Spec.Arch.Concrete x) && decide (Spec.Arch.Dom y) then
+          bool01 (decide (y ≠ Spec.Arch.All) && Spec.Arch.wildMatches x y)
+        else if decide (Spec.Arch.Concrete y) && decide (Spec.Arch.Dom x) then
+          bool01 (decide (x ≠ Spec.Arch.All) && Spec.Arch.wildMatches y x)
+        else if x = Spec.Arch.All && decide (Spec.Arch.Dom y) then bool01 (decide (y = Spec.Arch.All))
+        else if y = Spec.Arch.All && decide (Spec.Arch.Dom x) then bool01 (decide (x = Spec.Arch.All))
+        else "any"
+      pure (bool01 (x.is y) ++ " ; spec=" ++ spec)
   | "archmatch", neg :: n :: rest => do
       let n ← n.toNat?
       let (archs, rest) ← readArchs n rest
       match rest with
       | [a, o, c] =>
         let x ← readArch a o c
-        pure (bool01 ((⟨neg == "1", archs⟩ : ArchSet).matches x))
+        -- specification: (some entry matches) differs from (the list is negated); empty admits all
+        let set : ArchSet := ⟨neg == "1", archs⟩
+        pure (bool01 (set.matches x) ++ " ; spec=" ++ bool01 (Spec.Arch.listAdmits Arch.is set x))
       | _ => none
   | "possis", [d, a] => do
       let d ← hx d
@@ -84,7 +96,16 @@ def dependencyHandler : Handler
       let op ← hx op
       let num ← hx num
       let v ← readVersion e u r
-      pure (bool01 (Dep.satisfiedBy ⟨num, op⟩ v))
+      -- specification: V compared with N (Policy order) is <0, <=0, =0, >=0, >0 for <<, <=, =, >=, >>
+      let spec := match Version.parse num with
+        | .error _ => "0"
+        | .ok n =>
+          if Spec.Version.nulFree v.upstream && Spec.Version.nulFree v.revision then
+            let q := Spec.Version.ordInt (Spec.Version.compare v n)
+            bool01 (if op = Dep.opLT then q < 0 else if op = Dep.opLE then q ≤ 0 else if op = Dep.opEQ then q = 0
+              else if op = Dep.opGE then q ≥ 0 else if op = Dep.opGT then q > 0 else false)
+          else "any"
+      pure (bool01 (Dep.satisfiedBy ⟨num, op⟩ v) ++ " ; spec=" ++ spec)
   | _, _ => none
 
 end GoDebian.Drv
